@@ -20,7 +20,7 @@ class ClientModel:
         self.body = bodies[0]
         chk.saw(self.body)
         self.engine = common.mk_engine(fb)
-        self.paths = self.engine.run(self.body)
+        self.paths = [p for p in self.engine.run(self.body) if common.feasible_opaque_errors(fb, p)]
         chk.analysed['paths'] += len(self.paths)
         for p in self.engine.inlined:
             chk.analysed['functions'].add(p)
